@@ -1711,9 +1711,9 @@ def _run(o, thorough, rng, gens, side, provcfg, jobs):
     if stress:
         st = stress[-1]
         o.sample({"stress_workers": st["n"], "scn": st["scn"], "real": st["real"], "store_ok": st["store_ok"]})
-    if tier == "thorough":  # inductive invariants of the design (Apalache; harness/apalache.py)
+    if thorough:  # inductive invariants of the design (Apalache; harness/apalache.py)
         import apalache
-        common.with_engine(o, "inductive", lambda: apalache.extend(o, tier, PID))
+        common.with_engine(o, "inductive", lambda: apalache.extend(o, "thorough", PID))
     return o.finish()
 
 
